@@ -1263,6 +1263,9 @@ class Translator:
             if arrs:
                 return opjoin(arrs + [x for x in allv if weaklike(x, self.weakvars)])
             return opjoin(allv)
+        if A in ("concatenate", "stack", "vstack", "hstack") and n.args and isinstance(n.args[0], (ast.List, ast.Tuple)) and base_expr is None \
+                and not any(isinstance(x, ast.Starred) for x in n.args[0].elts):
+            return opjoin([self.ex(x) for x in n.args[0].elts])      # the arrays of a literal list are promoted: exact as soon as one of them is
         if A in EXACT_CALLS:
             return opjoin(allv)      # NumPy arithmetic: the promotion of everything that goes in, exact as soon as one operand is
         # container constructors and library functions (modular summary: the callee is certified separately under the assumption that ALL
@@ -1376,6 +1379,12 @@ class Translator:
                 return same
             if isinstance(t.ops[0], (ast.NotEq, ast.IsNot)):
                 return not same
+        if isinstance(t, ast.Compare) and len(t.ops) == 1 and isinstance(t.left, ast.Name) and t.left.id in self.flagvals \
+                and isinstance(t.ops[0], (ast.In, ast.NotIn)) and isinstance(t.comparators[0], (ast.Tuple, ast.List, ast.Set)) \
+                and all(isinstance(x, ast.Constant) and (isinstance(x.value, (bool, str)) or x.value is None) for x in t.comparators[0].elts):
+            a_ = self.flagvals[t.left.id]                                 # `non_negative not in (False, None)`, `init in ("svd", "random")`
+            isin = any(type(a_) is type(x.value) and a_ == x.value for x in t.comparators[0].elts)
+            return isin if isinstance(t.ops[0], ast.In) else (not isin)
         if isinstance(t, ast.Compare) and len(t.ops) == 1 and isinstance(t.left, ast.Name) and t.left.id in self.consts \
                 and isinstance(t.comparators[0], ast.Constant) and isinstance(t.comparators[0].value, int) and not isinstance(t.comparators[0].value, bool):
             c, op, k = t.comparators[0].value, t.ops[0], self.consts[t.left.id]
@@ -2650,6 +2659,65 @@ def run(chk):
                              {"function": q, "level": lvl, "exact_output_positions": outs, "leaves": r["leaves"], "statements": [r["n_init"], r["n_loop"]]})
     chk.notes.append(f"source-level exact-dtype tie: {len(emeta)} functions with {sum(len(m[2]) for m in emeta)} outputs certified to have exactly the data's dtype "
                      f"in all four contexts; {n_shape} not judged (number of outputs changed)")
+    # ---- 4b''. the same for the translations with every boolean / string / None-valued option at its default ("complex stays complex with default
+    # options"): only the functions for which this adds something to the all-paths certification (decompositions whose non-default options make
+    # outputs real-valued by design: non_negative=True, normalisation, returned errors ...)
+    xdbase = load_extract_baseline("exact_default")
+    exd = extract_all(C.REPO, defaults_mode=True)
+    dcases, dmeta = [], []
+    for q in sorted(exd):
+        r, b = exd[q], xdbase.get(q)
+        if "error" in r or not b or not b["outs"] or base.get(q, 0) < 1 or ".metrics." in q or b == xbase.get(q):
+            continue
+        if b["n_out"] != r["n_out"]:
+            chk.notes.append(f"function {q} (default options) now has {r['n_out']} array outputs (baseline {b['n_out']}): exact-dtype positions not judged")
+            if q.rsplit(".", 1)[1] in EXACT_CALLEES_DEFAULT:
+                chk.broken.append({"what": "C18 source-level exact-dtype tie (default options): " + q + " is assumed to return exact results by its callers but its outputs "
+                                           "changed shape; regenerate corpus/C18/_extracted_levels.json (write_extract_baseline)", "detail": [b["n_out"], r["n_out"]]})
+            continue
+        outs = "[" + "; ".join(f"{k}%nat" for k in b["outs"]) + "]"
+        dcases.append(f"(CExtX {len(dcases)}%nat {base[q]}%nat {r['prog']} {outs})")
+        dmeta.append((q, base[q], b["outs"], r))
+    dfailing, d_eval, dbroken = C.run_case_shards("C18", HEADER, "case", dcases, shard=40, tag="extxd")
+    n_eval += d_eval
+    chk.cov["traces_validated_against_impl"] = n_eval
+    for b in dbroken:
+        chk.broken.append({"what": "correspondence corr:C18 (extracted programs, exact dtype, default options) shard not evaluated", "detail": b})
+    for i, (q, lvl, outs, r) in enumerate(dmeta):
+        chk.count(key=("extracted-exact-default", q), nontrivial=True)
+        chk.hist("stream", "extracted function, exact outputs with default options")
+        if i in dfailing:
+            chk.disagreement("corr:C18 dtype program extracted from the source of " + q + " WITH ITS OPTIONS AT THEIR DEFAULTS: an output that was certified to have EXACTLY the "
+                             "data's dtype (complex stays complex; Model/Dtype.v all_exact2) no longer is, at level " + str(lvl),
+                             {"function": q, "level": lvl, "exact_output_positions": outs, "leaves": r["leaves"], "statements": [r["n_init"], r["n_loop"]]})
+    chk.notes.append(f"source-level exact-dtype tie with default options: {len(dmeta)} further functions, {sum(len(m[2]) for m in dmeta)} outputs certified")
+    # ---- 4b3. what stands behind the SHALLOW skeleton families (output = promotion of the inputs, nothing of the internals transcribed): for each of
+    # their entry points, is the program extracted from its source certified to return exactly the data's dtype (which is what the shallow skeleton says)?
+    SHALLOW = {"FPure", "FTTCross", "FCpReg", "FTuckerReg", "FPlsr", "FMetric", "FIndexed", "FPermute", "FFlipSign"}
+    ok_all = {m[0] for i, m in enumerate(emeta) if i not in efailing}
+    ok_def = {m[0] for i, m in enumerate(dmeta) if i not in dfailing}
+    shallow = {}
+    for t in T:
+        if t["fam"] not in SHALLOW or t.get("lenient"):
+            continue
+        last = t["ep"].rsplit(".", 1)[1]
+        qs = [q for q in ex if "error" not in ex[q] and (q.rsplit(".", 1)[1] == last or ("." + last + ".") in q) and not q.endswith("__init__")]
+        for q in qs:
+            b, bd = xbase.get(q), xdbase.get(q)
+            if q in ok_all and b and len(b["outs"]) == b["n_out"]:
+                st_ = "exact"
+            elif (q in ok_def or (q in ok_all and bd == b)) and bd and len(bd["outs"]) == bd["n_out"]:
+                st_ = "exact with default options"
+            elif b and b["outs"] and (q in ok_all):
+                st_ = f"exact for {len(b['outs'])} of {b['n_out']} outputs"
+            else:
+                st_ = "precision class only" if base.get(q, 0) >= 1 else "not certified"
+            shallow.setdefault(t["fam"], {})[q.split("tensorly.", 1)[-1]] = st_
+    chk.cov["shallow_families_source_certification"] = shallow
+    n_sh = sum(len(v) for v in shallow.values())
+    n_ex = sum(1 for v in shallow.values() for x in v.values() if x.startswith("exact") and " of " not in x)
+    chk.notes.append(f"shallow skeleton families: {n_sh} functions behind their entry points, {n_ex} certified from the source to return exactly the data's dtype "
+                     f"(= what the shallow skeleton states), the rest: " + "; ".join(sorted(f"{q}: {x}" for v in shallow.values() for q, x in v.items() if not (x.startswith("exact") and " of " not in x)))[:1500])
     # ---- 4b'. the exact certification against this run's executions: an entry point all of whose outputs are certified exact must have
     # returned only arrays of exactly the data's dtype in every complex-data run (mask absent or of the data's dtype)
     allex = {q.rsplit(".", 1)[1] for q, b in xbase.items() if b["outs"] and len(b["outs"]) == b["n_out"] and not q.rsplit(".", 2)[1][:1].isupper()
